@@ -57,6 +57,15 @@ def Mat3.zeros : Mat3 α :=
   let z : α := ((0 : Nat) : α)
   ⟨z, z, z, z, z, z, z, z, z⟩
 
+/-- `matrix[(i, j)] = v` (nalgebra indexing; an index outside the 3x3 matrix panics in the crate and is
+never written by the parser, whose rows are 0 and 1 — here it leaves the matrix unchanged) -/
+def Mat3.setEntry (m : Mat3 α) (i j : Nat) (v : α) : Mat3 α :=
+  match i, j with
+  | 0, 0 => { m with m00 := v } | 0, 1 => { m with m01 := v } | 0, 2 => { m with m02 := v }
+  | 1, 0 => { m with m10 := v } | 1, 1 => { m with m11 := v } | 1, 2 => { m with m12 := v }
+  | 2, 0 => { m with m20 := v } | 2, 1 => { m with m21 := v } | 2, 2 => { m with m22 := v }
+  | _, _ => m
+
 def Mat3.identity : Mat3 α :=
   let z : α := ((0 : Nat) : α)
   let o : α := ((1 : Nat) : α)
